@@ -10,3 +10,14 @@ def reg(pid, text, note, technique, design_ref, category="model_checking"):
 
 NOT_BUILT_REASON = "check not built yet in this revision (planned in DESIGN.md section 5; no claim is made)"
 NOT_APPLICABLE = {}
+
+reg("C13",
+    text="TLC explores the generator + reduction-iterator state machine (spec/Reduce.tla over spec/Quadtree.tla) exhaustively for every configuration "
+         "(kind x filter x apex) of a bounded family - all 17^4 effective depth-2 filters in the thorough tier - checking the iterator's assertions, "
+         "exactly-once / children-first enumeration, the three counts, ops+leaves=live, the closed forms and the sub-pyramid restriction in every state; "
+         "every configuration's terminal history is then replayed into the real Pyramid (generator, iterator, counts, leaf visit, serial walk) and compared. "
+         "The position algebra is also evaluated by TLC on seeded positions to depth 27 and compared with the real functions.",
+    note="Bounded: depth <= 3 for behaviours (depth 2 exhaustive over filters in thorough), positions to depth 27 for the algebra. Filters are pure functions of the position. "
+         "TLC and the JSON bridge are trusted; the spec's Live/Leaves/Ops definitions transcribe the docstrings of count_live_tiles/count_operations.",
+    technique="TLA+/TLC exhaustive model checking of the iterator state machine + replay of every TLC behaviour's history into the real code",
+    design_ref="DESIGN.md 4.1, 5/C13")
